@@ -101,17 +101,16 @@ def run(chk, prog):
     # ---------------------------------------------------------------- (5) --test = runtime
     m = prog.body_of(prog.one(r"^main$"))
     # the config_test exit: a return dominated by the true edge of the config_test flag
-    test_ret = None
+    test_rets = []
     for b in m.reachable:
         t = m.term(b)
         if t and t["k"] == "switch":
             l = op_base(t["d"])
             if l is not None and (m.local_name(l) == "config_test" or m.root_name(l) == "config_test"):
-                test_ret = (b, t["o"])
-    if test_ret is None:
+                test_rets.append((b, t["o"]))
+    if not test_rets:
         chk.anchor_missing("test=runtime", "the config_test branch in main")
         return
-    sb, tt = test_ret
     need = [(r"listeners::Listener::init$", "Listener::init"), (r"connectors::Connector::init$", "Connector::init"),
             (r"^GlobalState::set_rules$", "set_rules"), (r"listeners::Listener::verify$", "Listener::verify"),
             (r"connectors::Connector::verify$", "Connector::verify"), (r"access_log::AccessLog::init$", "AccessLog::init")]
@@ -119,7 +118,7 @@ def run(chk, prog):
         need.append((r"metrics::MetricsServer::init$", "MetricsServer::init"))
     for pat, label in need:
         cs = [c for c in m.calls if re.search(pat, c.path or "") or re.search(pat, c.name or "")]
-        ok = bool(cs) and all(sb in m.reach_from([c.bb]) and c.bb not in m.reach_from([tt]) for c in cs)
+        ok = bool(cs) and all(sb in m.reach_from([c.bb]) and c.bb not in m.reach_from([tt]) for c in cs for (sb, tt) in test_rets)
         chk.instance("test=runtime", "%s:%s" % (m.file, m.line), "%s runs before the --test exit (and not only after it)" % label, ok)
         if not ok:
             chk.finding("test=runtime", m.key, label, "", "%s:%s" % (m.file, m.line),
